@@ -53,9 +53,17 @@ func Str(n int) string {
 	if n < 0 || n > 26*26 {
 		panic(fmt.Sprintf("name %d out of range", n))
 	}
+	if n == StrPrinted {
+		// a label VALUE (never a key or a name) that contains the characters a
+		// printed selector uses as separators: {aa: <this>} prints like {aa: ab, ac: ad}
+		return Str(2) + "," + Str(3) + "=" + Str(4)
+	}
 	n--
 	return string([]byte{byte('a' + n/26), byte('a' + n%26)})
 }
+
+// StrPrinted is the id of the separator-laden label value (see Str).
+const StrPrinted = 26 * 26
 
 // KV is one map entry.
 type KV struct{ K, V int }
